@@ -158,6 +158,12 @@ def log_partial_ops(fi):
                 convs = _re.findall(r"%[-+ #0]*\d*(?:\.\d+)?([a-zA-Z%])", n.left.value)
                 convs = [x for x in convs if x != "%"]
                 ops = list(n.right.elts) if isinstance(n.right, ast.Tuple) else [n.right]
+                # "... %s" % t  with t itself a tuple: its ELEMENTS are the operands (TypeError unless there is exactly one)
+                from .sqlmodel import single_def as _sd
+
+                rv = _sd(fi, n.right.id) if isinstance(n.right, ast.Name) and n.right.id not in fi.params else None
+                if isinstance(rv, ast.Call) and norm(rv.func) == "tuple" or isinstance(rv, ast.Tuple):
+                    out.append((n, f"`{norm(n)[:60]}` gives %-formatting a tuple (`{n.right.id} = {norm(rv)[:40]}`) as its right operand: the tuple's elements are taken as the operands, so the line raises TypeError whenever the tuple does not have exactly {len(convs)} element(s)"))
                 for cv, op in zip(convs, ops):
                     if cv in "dioxXeEfFgG" and isinstance(op, ast.Attribute) and op.attr == "id":
                         out.append((n, f"`%{cv}` is applied to `{norm(op)}` while the message is built (eager %-formatting): an event that was never stored has id None, and `%{cv}` of None raises TypeError"))
@@ -226,3 +232,84 @@ def one_shot_reuse(prog, rep, files, rule="ONE-SHOT"):
                     rep.violation(rule, fi.short, f"`{name}` used per element", f"`{name}` may be bound to a one-shot iterator (`{norm(d)[:70]}`) and is used at line {use.lineno} inside `{norm(repeated).splitlines()[0][:50]}`, which runs once per element: the first element consumes the iterator, every later one finds it empty", fi.loc(use))
                     break
     rep.ok(rule, "anchor files", "iterator objects", f"{n} functions scanned", None)
+
+
+# ---------------------------------------------------------------------------------------------------------
+# FREE-STATE: functions of the anchor files keep nothing between calls
+
+MUTATORS = ("append", "extend", "insert", "pop", "popitem", "remove", "clear", "update", "setdefault", "add", "discard", "sort", "reverse", "appendleft", "popleft")
+
+
+def free_state(prog, rep, files, rule="FREE-STATE"):
+    """a function writes into a container that outlives the call: a variable of an enclosing function (what a decorator or
+    factory keeps for its inner function) or a module-level container introduced after the rules were written"""
+    from .normalize import known_constants
+
+    rep.rule(rule, "no function of the anchor files writes into a container that outlives the call (a variable of an enclosing function, e.g. the `last = {}` of a memoising decorator; a module-level dict / list / set that is not one of the module's known tables): what one call leaves there answers a later call, whose arguments may have changed in place (same list object, same length) or may belong to another store")
+    known = set(known_constants()) if callable(known_constants) else set()
+    n = 0
+    for fi in prog.funcs.values():
+        if fi.mod.relpath not in files:
+            continue
+        n += 1
+        local = set(fi.params) | {x.id for x in walk_own(fi.node) if isinstance(x, ast.Name) and isinstance(x.ctx, ast.Store)}
+        if fi.node.args.vararg:
+            local.add(fi.node.args.vararg.arg)
+        if fi.node.args.kwarg:
+            local.add(fi.node.args.kwarg.arg)
+        for node in walk_own(fi.node):
+            base = None
+            if isinstance(node, (ast.Assign, ast.AugAssign)):
+                for t in (node.targets if isinstance(node, ast.Assign) else [node.target]):
+                    b = t
+                    while isinstance(b, ast.Subscript):
+                        b = b.value
+                    if b is not t and isinstance(b, ast.Name):
+                        base = b.id
+            elif isinstance(node, ast.Expr) and isinstance(node.value, ast.Call) and isinstance(node.value.func, ast.Attribute) and node.value.func.attr in MUTATORS and isinstance(node.value.func.value, ast.Name):
+                base = node.value.func.value.id
+            elif isinstance(node, ast.Delete):
+                for t in node.targets:
+                    if isinstance(t, ast.Subscript) and isinstance(t.value, ast.Name):
+                        base = t.value.id
+            if base is None or base in local or base in ("self", "cls"):
+                continue
+            # where does the name live?
+            o = fi.outer
+            where = None
+            while o is not None:
+                if base in set(o.params) | {x.id for x in walk_own(o.node) if isinstance(x, ast.Name) and isinstance(x.ctx, ast.Store)}:
+                    where = f"a variable of the enclosing function {o.short}"
+                    break
+                o = o.outer
+            if where is None and base in fi.mod.consts:
+                q = f"{fi.mod.name}:{base}"
+                if q in known:
+                    continue
+                v = fi.mod.consts[base]
+                if isinstance(v, (ast.Dict, ast.List, ast.Set)) or (isinstance(v, ast.Call) and norm(v.func) in ("dict", "list", "set", "defaultdict", "collections.defaultdict", "OrderedDict", "collections.OrderedDict", "deque", "collections.deque", "WeakValueDictionary", "weakref.WeakValueDictionary")):
+                    where = f"the module-level container `{base}`"
+            if where is None:
+                continue
+            rep.violation(rule, fi.short, f"`{norm(node)[:50]}`", f"{fi.short} writes into {where} (`{norm(node)[:70]}`): it outlives the call, so a later call is answered from what an earlier one left there; the arguments it was computed from may have been changed in place since (same list object, same length), or belong to another datastore", fi.loc(node))
+        # a mutable default is created once, when the function is defined: handing it on or writing into it keeps state
+        a_ = fi.node.args
+        pos_ = a_.posonlyargs + a_.args
+        for p_, d_ in list(zip(pos_[len(pos_) - len(a_.defaults):], a_.defaults)) + [(p2, d2) for p2, d2 in zip(a_.kwonlyargs, a_.kw_defaults) if d2 is not None]:
+            mutable = isinstance(d_, (ast.Dict, ast.List, ast.Set)) or (isinstance(d_, ast.Call) and norm(d_.func) in ("dict", "list", "set", "defaultdict", "collections.defaultdict", "deque", "collections.deque"))
+            if not mutable:
+                continue
+            nm = p_.arg
+            if any(isinstance(x, ast.Name) and x.id == nm and isinstance(x.ctx, ast.Store) for x in walk_own(fi.node)):
+                continue  # re-bound before use (e.g. `x = x or {}`) is judged by its uses below only if it is not re-bound
+            used = None
+            for x in walk_with_nested_exprs(fi.node):
+                if isinstance(x, ast.Call) and any(isinstance(y, ast.Name) and y.id == nm for y in list(x.args) + [k.value for k in x.keywords]):
+                    used = used or x
+                if isinstance(x, ast.Call) and isinstance(x.func, ast.Attribute) and isinstance(x.func.value, ast.Name) and x.func.value.id == nm and x.func.attr in MUTATORS:
+                    used = used or x
+                if isinstance(x, (ast.Assign, ast.AugAssign)) and any(isinstance(t, ast.Subscript) and isinstance(t.value, ast.Name) and t.value.id == nm for t in (x.targets if isinstance(x, ast.Assign) else [x.target])):
+                    used = used or x
+            if used is not None:
+                rep.violation(rule, fi.short, f"mutable default `{nm}={norm(d_)}`", f"the default of `{nm}` is one object for all calls, and `{norm(used)[:60]}` hands it on / writes into it: what one call puts there (e.g. the memo of a deepcopy: id(original) -> copy) is still there at the next call, which then reuses copies made for other arguments", fi.loc(used))
+    rep.ok(rule, "anchor files", "state between calls", f"{n} functions scanned", None)
